@@ -135,6 +135,8 @@ def _structure_worker(cells, tier, backends, is_canary):
         dt = Sym(z3.Real("dt"))
         tmo = 30000 if tier == "quick" else 120000
         for be in backends:
+            if be == "jaxley.stone" and max(max(nc) for _, nc in cells) > (2 if tier == "quick" else 3):
+                continue        # Stone's LU on wider branches exceeds the solver budget of this tier: assumed there (stated in the evidence)
             Ctx.reset()
             P = sym_params(topo.N)
             if be == "jax.sparse":
@@ -174,7 +176,7 @@ def main(tier):
     S = structures(tier, ck.seed)
     # parent vectors that are not topologically sorted: must be refused (or solved correctly)
     S += [[([-1, 2, 0], [1, 1, 1])], [([-1, 2, 0], [2, 1, 2])], [([-1, 0, 3, 1], [1, 2, 1, 1])]]
-    backends = ["jaxley.thomas", "jax.sparse"]
+    backends = ["jaxley.thomas", "jaxley.stone", "jax.sparse"]
     args = [(c, tier, backends) for c in S] + [(CANARY_STRUCT, "quick", backends, can) for can in CANARIES]
     outs = run_units("jxverif.props.C01", "structure_worker", args)
     n_struct = 0
@@ -225,13 +227,14 @@ def main(tier):
                 ck.error(f"contract target {f} was never executed")
         else:
             ck.add_function(f, "body NOT discharged" if any(short.split(".")[-1] in ff for ff in failed_funcs) else "body discharged", n)
-    ck.add_function("tridiax.stone.stone_triang_upper / stone_backsub_lower", "assumed")
+    for f in ("tridiax.stone.stone_triang_upper", "tridiax.stone.stone_backsub_lower", "tridiax.stone._lu", "tridiax.stone._solve_l", "tridiax.stone._solve_u"):
+        ck.add_function(f, "body discharged" if reached.get(f, 0) and not any("stone" in ff for ff in failed_funcs) else "assumed", reached.get(f, 0))
     ck.add_function("jax.experimental.sparse.linalg.spsolve", "assumed")
     ck.extra["code_reached"] = {k: v for k, v in reached.items() if k.split(".")[0] in ("jaxley", "tridiax")}
     ck.extra["structures"] = {"count": n_struct, "exhaustive_within_bound": True,
                               "bound": ("all parent vectors with parents[i]<i for <= 4 branches x ncomp in {1,2}; single branches up to 4 compartments; 2 deeper samples; 6 networks of 2-3 cells; 3 unsorted parent vectors"
                                         if tier == "quick" else "trees <= 5 branches x ncomp in {1,2,3}; <= 4 branches with a 4-compartment branch; 200 seeded random trees <= 8 branches / <= 5 compartments; all 2- and 3-cell networks over a 6-cell family")}
-    ck.trusted = ["jax.experimental.sparse.linalg.spsolve solves the CSR system it is given", "tridiax.stone_* computes the same function as tridiax.thomas_* (thomas runs through the obligations, stone is assumed)",
+    ck.trusted = ["jax.experimental.sparse.linalg.spsolve solves the CSR system it is given", "tridiax.stone_*: its real code runs through the same chain obligations for structures with <= 2 (quick) / <= 3 (thorough) compartments per branch; for wider branches it is ASSUMED to compute the same function as tridiax.thomas_* (which runs through the chain for every structure)",
                   "jax.numpy/lax/vmap primitive models", "z3 nlsat", "specs/cable.py states the physics",
                   "cited: a strictly diagonally dominant M-matrix system has exactly one solution"]
     ck.assumptions += ["positive radius/length/axial resistivity/capacitance, membrane conductance terms >= 0, dt > 0; all REAL values (proved), static structure enumerated (bounded)",
